@@ -344,7 +344,15 @@ func (e *FnEnc) bagTransfer(b *bagSt, in ssa.Instruction, report bool) {
 		}
 	case *ssa.Slice:
 		if b.vals[i.X] || (isPtrT(i.X.Type()) && b.cellHas(i.X)) {
+			if hc, ok := i.High.(*ssa.Const); ok && hc.Value != nil && hc.Int64() == 0 {
+				return // x[:0]: empty, whatever the order was
+			}
 			b.vals[i] = true
+			// a proper part of an unordered collection: which elements it holds depends on the order, and sorting the
+			// part afterwards does not repair that
+			if report && isSliceT(i.X.Type()) && b.vals[i.X] && (i.Low != nil || i.High != nil) {
+				e.bagViolation("a part of an unordered collection is selected by position", i)
+			}
 		}
 	case *ssa.Extract:
 		if c, ok := i.Tuple.(*ssa.Call); ok && e.calleeBagResult(&c.Call, i.Index) {
